@@ -1,7 +1,9 @@
 """C14: run the REAL Cell.get_all_segments_in_group / optimise_segment_groups on generated cells.
 
 stdin : {"cases": [{"segs": [int], "groups": [{"id": str, "members": [int], "includes": [str], "nlex": str|None}]}]}
-stdout: last line = {"results": [{"resolved": [...], "all": ..., "opt": ..., "resolved_after": [...], "opt2": ...}]}
+        optional "histories": [{"segs", "groups", "steps": [{"do": "optimise_all"|"optimise_one"|"move_member"|...}]}]
+stdout: last line = {"results": [{"resolved": [...], "all": ..., "opt": ..., "resolved_after": [...], "opt2": ...}],
+                     "histories": [[{"before": obs, "after": obs|err, "fresh": obs|err, "new_attributes": [...]}]]}
 A query result is a list of ids or {"err": "NoGroup"|"NoSuchGroup"|"Recursion"|"Other:<type>"}.
 A group dump is {"id","members","includes","nlex"}.
 """
@@ -89,14 +91,92 @@ def run_case(case):
     return out
 
 
+# ---------------------------------------------------------------- histories on one Cell object
+def find(cell, gid):
+    for g in cell.morphology.segment_groups:
+        if g.id == gid:
+            return g
+    return None
+
+
+def apply_step(cell, st):
+    """edits are what user code does to the generated objects; optimising calls are the real methods"""
+    k = st["do"]
+    if k == "optimise_all":
+        cell.optimise_segment_groups()
+    elif k == "optimise_one":
+        cell.optimise_segment_group(st["id"])
+    elif k == "move_member":
+        a, b = find(cell, st["from"]), find(cell, st["to"])
+        a.members = [m for m in a.members if m.segments != st["seg"]]
+        b.members.append(neuroml.Member(segments=st["seg"]))
+    elif k == "add_member":
+        find(cell, st["id"]).members.append(neuroml.Member(segments=st["seg"]))
+    elif k == "remove_member":
+        g = find(cell, st["id"])
+        g.members = [m for m in g.members if m.segments != st["seg"]]
+    elif k == "add_include":
+        find(cell, st["id"]).includes.append(neuroml.Include(segment_groups=st["inc"]))
+    elif k == "remove_include":
+        g = find(cell, st["id"])
+        g.includes = [i for i in g.includes if i.segment_groups != st["inc"]]
+    elif k == "add_group":
+        sg = neuroml.SegmentGroup(id=st["id"])
+        for m in st["members"]:
+            sg.members.append(neuroml.Member(segments=m))
+        for i in st["includes"]:
+            sg.includes.append(neuroml.Include(segment_groups=i))
+        cell.morphology.segment_groups.append(sg)
+    else:
+        raise RuntimeError("bad step")
+
+
+def observe(cell):
+    groups = dump_groups(cell)
+    return {"groups": groups, "resolved": [query(cell, g["id"]) for g in groups], "all": query(cell, "all")}
+
+
+def run_history(h):
+    cell = build(h)
+    keys0 = sorted(vars(cell).keys())
+    mkeys0 = sorted(vars(cell.morphology).keys())
+    out = []
+    cur = observe(cell)
+    for st in h["steps"]:
+        rec = {"before": cur}
+        is_opt = st["do"] in ("optimise_all", "optimise_one")
+        try:
+            apply_step(cell, st)
+            rec["after"] = observe(cell)
+        except BaseException as e:  # noqa
+            rec["after"] = classify(e)
+            out.append(rec)
+            break
+        if is_opt:
+            # the same call on a freshly built cell that equals the history cell as it was before the call
+            fresh = build({"segs": h["segs"], "groups": cur["groups"]})
+            try:
+                apply_step(fresh, st)
+                rec["fresh"] = observe(fresh)
+            except BaseException as e:  # noqa
+                rec["fresh"] = classify(e)
+            rec["new_attributes"] = sorted((set(vars(cell).keys()) - set(keys0))
+                                           | (set(vars(cell.morphology).keys()) - set(mkeys0)))
+        cur = rec["after"]
+        out.append(rec)
+    return out
+
+
 def main():
     payload = json.load(sys.stdin)
-    res = []
+    res, hres = [], []
     sink = io.StringIO()
     with contextlib.redirect_stdout(sink):
-        for c in payload["cases"]:
+        for c in payload.get("cases", []):
             res.append(run_case(c))
-    print(json.dumps({"results": res}))
+        for h in payload.get("histories", []):
+            hres.append(run_history(h))
+    print(json.dumps({"results": res, "histories": hres}))
 
 
 if __name__ == "__main__":
